@@ -337,6 +337,64 @@ func lockSuite(c *Ctx) []Finding {
 		}
 		count("second-open-waits", "ok")
 	}
+
+	// (f) what a waiting Open sees is the file as of the moment it gets the lock: a session
+	// holding the lock brings the file to its final size and content while an Open waits
+	fdsOn := func(path string) int {
+		n := 0
+		ents, _ := ioutil.ReadDir("/proc/self/fd")
+		for _, e := range ents {
+			if l, err := os.Readlink("/proc/self/fd/" + e.Name()); err == nil && l == path {
+				n++
+			}
+		}
+		return n
+	}
+	for vi, variant := range []string{"empty", "half", "longer"} {
+		fp := filepath.Join(dir, fmt.Sprintf("late%d.wsp", vi))
+		f, err := os.OpenFile(fp, os.O_RDWR|os.O_CREATE|os.O_EXCL, 0644)
+		if err != nil {
+			continue
+		}
+		for syscall.Flock(int(f.Fd()), syscall.LOCK_EX) == syscall.EINTR {
+		}
+		switch variant {
+		case "half":
+			f.Write(gb[:len(gb)/2])
+		case "longer":
+			f.Write(append(append([]byte{}, gb...), make([]byte, 5000)...))
+		}
+		res := make(chan error, 1)
+		go func() {
+			db, err := wt.Open(fp)
+			if err == nil {
+				if len(db.ArchiveInfoList()) != len(lockLayout()) {
+					err = fmt.Errorf("opened with %d archives", len(db.ArchiveInfoList()))
+				}
+				db.Close()
+			}
+			res <- err
+		}()
+		// the other Open has its own descriptor on the file: it is waiting for the lock
+		for i := 0; i < 400 && fdsOn(fp) < 2; i++ {
+			time.Sleep(5 * time.Millisecond)
+		}
+		time.Sleep(30 * time.Millisecond)
+		f.Truncate(int64(len(gb)))
+		f.WriteAt(gb, 0)
+		f.Sync()
+		syscall.Flock(int(f.Fd()), syscall.LOCK_UN)
+		f.Close()
+		select {
+		case err := <-res:
+			count("waiting-open-sees-final-state", "ok "+variant)
+			if err != nil {
+				bad("waiting-open-stale", fmt.Sprintf("an Open that waited for the lock while the holder brought the file (%s at first) to its final state failed on the finished, valid file: %v", variant, err))
+			}
+		case <-time.After(5 * time.Second):
+			bad("open-never-returns", "an Open waiting for the lock did not return within 5 s after the holder released it")
+		}
+	}
 	return findings
 }
 
@@ -496,6 +554,13 @@ func raceSuite(c *Ctx) []Finding {
 			fmt.Sprintf("/view?file=it%%2Ff00.wsp&retention=-1&from=%s&until=%s&now=%s", tsq(0), tsq(g.now), tsq(g.now)),
 			"/view-raw?file=it%2Ff01.wsp&retention=-1",
 			fmt.Sprintf("/sum?item=it&pattern=*.wsp&retention=-1&from=%s&until=%s&now=%s", tsq(g.now-g.lay.MaxRet()), tsq(g.now), tsq(g.now)),
+			// requests that fail, each with its own message: concurrent failures on one endpoint
+			// must not see each other's error
+			"/view?file=&retention=-1", "/view?file=it%2Ff00.wsp&retention=-1&from=zzz", "/view?file=it%2Ff00.wsp&retention=-1&until=zzz",
+			"/view?file=it%2Ff00.wsp&retention=-1&now=zzz", "/view?file=it%2Ff00.wsp&retention=abc", "/view?file=it%2Ff00.wsp&retention=99",
+			"/view-raw?file=&retention=-1", "/view-raw?file=it%2Ff01.wsp&retention=abc", "/view-raw?file=it%2Ff01.wsp&retention=99",
+			"/sum?item=&pattern=*.wsp", "/sum?item=it&pattern=", "/sum?item=it&pattern=*.wsp&from=zzz", "/sum?item=it&pattern=*.wsp&retention=99",
+			"/items?pattern=", "/items?pattern=%5B", "/files?pattern=", "/files?pattern=%5B",
 		}
 		seq := make([]string, len(urls))
 		for i, u := range urls {
